@@ -94,3 +94,236 @@ def attach_dedup():
                                f'renumbering of {key} is not idempotent'})
         return new_surfs, renumbering
     COUNTS['dedup.bindings'] += _replace_everywhere(original, wrapper)
+
+
+# --------------------------------------------------------------------------
+# icontract contracts on the real helper functions.  Conditions record and
+# return True (DESIGN §2.5), so one run collects every violation.
+# --------------------------------------------------------------------------
+def _record(monitor, detail):
+    if len(EVENTS) < 200:
+        EVENTS.append({'monitor': monitor, 'detail': detail})
+
+
+def _is_rotation(mat9, tol=1e-9):
+    mat = np.array(mat9, dtype=float).reshape(3, 3)
+    return (np.allclose(mat @ mat.T, np.eye(3), atol=tol)
+            and abs(np.linalg.det(mat) - 1.0) < tol)
+
+
+def attach_contracts():
+    '''Attach every contract; safe to call more than once.'''
+    if 'contracts' in _ATTACHED:
+        return
+    _ATTACHED.add('contracts')
+    import icontract
+    from . import matref, model
+    from t4_geom_convert.Kernel.Transformation import Transformation as TR
+    from t4_geom_convert.Kernel.Volume import Lattice as LAT
+    from t4_geom_convert.Kernel import Utils, VectUtils
+    from t4_geom_convert.Kernel.Composition import ConstructCompositionT4 as CC
+    from MIP.mip import datacard
+
+    # -- normalize_transform: 12 numbers, proper rotation, entries kept ----
+    def nt_post(transf, result):
+        COUNTS['contract.normalize_transform'] += 1
+        if len(result) != 12:
+            _record('normalize_transform', f'{transf} -> {len(result)} numbers')
+            return True
+        if not _is_rotation(result[3:]):
+            # inputs that are themselves far from orthogonal are the
+            # caller's problem (the function warns); judge only clean inputs
+            given = [v for v in list(transf)[3:12] if v is not None]
+            if len(given) != 9 or _is_rotation(given, tol=1e-6):
+                _record('normalize_transform', f'{list(transf)} -> '
+                        f'{[round(v, 6) for v in result]} is not a proper '
+                        'rotation')
+            return True
+        for k, val in enumerate(list(transf)[:12]):
+            if val is not None and abs(float(val) - result[k]) > 1e-9:
+                if k >= 3 and not _clean_partial(transf):
+                    break
+                _record('normalize_transform', f'entry {k + 1} of '
+                        f'{list(transf)} not reproduced: {result[k]}')
+                break
+        return True
+
+    def _clean_partial(transf):
+        '''The supplied matrix entries can be completed to a rotation
+        (rows/columns of unit length, mutually orthogonal).'''
+        ent = list(transf)[3:12] + [None] * (9 - len(list(transf)[3:12]))
+        mat = [[ent[3 * i + j] for j in range(3)] for i in range(3)]
+        for vecs in (mat, [list(col) for col in zip(*mat)]):
+            for vec in vecs:
+                if all(v is not None for v in vec) and \
+                        abs(sum(v * v for v in vec) - 1.0) > 1e-9:
+                    return False
+        return True
+    wrapped = icontract.ensure(nt_post, error=AssertionError)(TR.normalize_transform)
+    COUNTS['bind.normalize_transform'] += _replace_everywhere(
+        TR.normalize_transform, wrapped)
+
+    # -- lattice index order ------------------------------------------------
+    orig_indices = LAT.LatticeBounds.indices
+
+    def indices(self):
+        out = list(orig_indices(self))
+        COUNTS['contract.indices'] += 1
+        bounds = self.bounds
+        expect = []
+
+        def rec(dim, tail):
+            if dim < 0:
+                expect.append(tuple(tail))
+                return
+            lo, hi = bounds[dim]
+            for val in range(lo, hi + 1):
+                rec(dim - 1, [val] + tail)
+        # leftmost index fastest = outermost loop over the last dimension
+        def gen(dim, tail):
+            if dim < 0:
+                expect.append(tuple(tail))
+                return
+            lo, hi = bounds[dim]
+            for val in range(lo, hi + 1):
+                gen(dim - 1, [val] + tail)
+        if bounds:
+            gen(len(bounds) - 1, [])
+            if out != expect:
+                _record('LatticeBounds.indices', f'{bounds}: {out[:6]}... is '
+                        'not first-index-fastest over the declared ranges')
+        return iter(out)
+    LAT.LatticeBounds.indices = indices
+
+    # -- expand_data_card equals my own expansion ---------------------------
+    def edc_post(tokens, expected, dtype, result):
+        COUNTS['contract.expand_data_card'] += 1
+        vals, consumed = result
+        toks = [str(t).lower() for t in tokens][:consumed]
+        if any(t.endswith('log') for t in toks):
+            return True
+        try:
+            mine = model.expand_shorthand(toks)
+        except (ValueError, IndexError):
+            return True
+        if dtype == 'int':
+            mine = [None if v is None else round(v) for v in mine]
+        ok = len(mine) == len(vals) and all(
+            (a is None and b is None) or
+            (a is not None and b is not None and abs(a - b) <= 1e-12 * max(1, abs(a)))
+            for a, b in zip(mine, vals))
+        if not ok:
+            _record('expand_data_card', f'{toks} -> {vals}, expected {mine}')
+        return True
+    wrapped = icontract.ensure(edc_post, error=AssertionError)(
+        datacard.expand_data_card)
+    COUNTS['bind.expand_data_card'] += _replace_everywhere(
+        datacard.expand_data_card, wrapped)
+
+    # -- normalize_float keeps the value and is idempotent ------------------
+    def nf_post(number, result):
+        COUNTS['contract.normalize_float'] += 1
+        try:
+            want = matref.fortran_float(number)
+        except ValueError:
+            return True
+        try:
+            got = float(result)
+        except ValueError:
+            _record('normalize_float', f'{number!r} -> {result!r} is not a '
+                    'number')
+            return True
+        if got != want:
+            _record('normalize_float', f'{number!r} -> {result!r} changes '
+                    f'the value ({want!r} -> {got!r})')
+        return True
+    wrapped = icontract.ensure(nf_post, error=AssertionError)(
+        Utils.normalize_float)
+    COUNTS['bind.normalize_float'] += _replace_everywhere(
+        Utils.normalize_float, wrapped)
+
+    # -- rescale_fractions: proportional, sums to the concentration ---------
+    def rf_post(fractions, concentration, result):
+        COUNTS['contract.rescale_fractions'] += 1
+        total = math.fsum(float(c) for _n, c in result)
+        if result and not math.isclose(total, concentration, rel_tol=1e-12):
+            _record('rescale_fractions', f'sum {total!r} != {concentration!r}')
+        if [n for n, _ in result] != [n for n, _ in fractions]:
+            _record('rescale_fractions', 'nuclide order changed')
+        return True
+    wrapped = icontract.ensure(rf_post, error=AssertionError)(
+        CC.rescale_fractions)
+    COUNTS['bind.rescale_fractions'] += _replace_everywhere(
+        CC.rescale_fractions, wrapped)
+
+    # -- planeParamsFromPoints: through the points, unit normal, rule -------
+    def pp_post(pt1, pt2, pt3, result):
+        COUNTS['contract.planeParamsFromPoints'] += 1
+        a, b, c, d = result
+        if abs(a * a + b * b + c * c - 1.0) > 1e-9:
+            _record('planeParamsFromPoints', f'normal not unit: {result}')
+        for pnt in (pt1, pt2, pt3):
+            if abs(a * pnt[0] + b * pnt[1] + c * pnt[2] - d) > 1e-8 * \
+                    max(1.0, max(abs(v) for v in pnt)):
+                _record('planeParamsFromPoints', f'{pnt} not on {result}')
+                break
+        from . import mcnp_ref
+        want = mcnp_ref.plane3_params((pt1, pt2, pt3))
+        if sum(x * y for x, y in zip(want[:3], (a, b, c))) < 0.999999:
+            # orientation differs; ARB facets are re-oriented by the caller,
+            # so only record, tagged, and let the property decide
+            COUNTS['contract.planeParamsFromPoints.orientation_differs'] += 1
+        return True
+    wrapped = icontract.ensure(pp_post, error=AssertionError)(
+        VectUtils.planeParamsFromPoints)
+    COUNTS['bind.planeParamsFromPoints'] += _replace_everywhere(
+        VectUtils.planeParamsFromPoints, wrapped)
+
+
+# --------------------------------------------------------------------------
+# cell_transform cache events (C05)
+# --------------------------------------------------------------------------
+def attach_cache_events():
+    if 'cache' in _ATTACHED:
+        return
+    _ATTACHED.add('cache')
+    from t4_geom_convert.Kernel.Volume.CellConversion import CellConversion
+    orig = CellConversion.cell_transform
+    orig_ref = CellConversion.convert_cellref
+
+    def cell_transform(self, cell_key, transform, cache=True):
+        before = self.new_cell_key
+        new_key = orig(self, cell_key, transform, cache=cache)
+        COUNTS['cache.cell_transform_calls'] += 1
+        book = self.__dict__.setdefault('_vt_book', {})
+        made = self.__dict__.setdefault('_vt_made', {})
+        ident = (cell_key, tuple(transform) if transform else ())
+        if cache:
+            if ident in book:
+                COUNTS['cache.hits'] += 1
+                if book[ident] != new_key:
+                    _record('cell_transform', f'{ident} gave {book[ident]} '
+                            f'then {new_key}')
+            else:
+                book[ident] = new_key
+        if self.new_cell_key != before:
+            COUNTS['cache.new_cells'] += 1
+            if new_key in made and made[new_key] != ident:
+                _record('cell_transform', f'key {new_key} produced for '
+                        f'{made[new_key]} and for {ident}')
+            made[new_key] = ident
+        elif transform and cache and new_key in made and \
+                made[new_key] != ident:
+            _record('cell_transform', f'{ident} answered with the cell made '
+                    f'for {made[new_key]}')
+        return new_key
+
+    def convert_cellref(self, cell, matching, union_ids):
+        res = orig_ref(self, cell, matching, union_ids)
+        COUNTS['cache.convert_cellref_calls'] += 1
+        if res is not None and res not in self.dic_vol_t4:
+            _record('convert_cellref', f'cell {cell} -> {res} which is not a '
+                    'volume')
+        return res
+    CellConversion.cell_transform = cell_transform
+    CellConversion.convert_cellref = convert_cellref
